@@ -123,15 +123,33 @@ def e2e_case(rng):
     tag_tmpl = tag_tmpl.replace('"', "")
     if not use_cli_msg:
         tmpl = tmpl.replace('"', "")
-    # config values are read through toml: write them as TOML basic strings
-    cfg = "[bumpver]\ncurrent_version = \"1.2.3\"\nversion_pattern = \"MAJOR.MINOR.PATCH\"\ncommit = true\ntag = true\npush = false\n"
-    if not use_cli_msg:
-        cfg += "commit_message = %s\n" % json.dumps(tmpl, ensure_ascii=False)
-    cfg += "tag_message = %s\n" % json.dumps(tag_tmpl, ensure_ascii=False)
-    cfg += "[bumpver.file_patterns]\n\"bumpver.toml\" = ['current_version = \"{version}\"']\n%s = ['{version}']\n" % (("'" + fname + "'") if ('"' in fname or "\\" in fname) else json.dumps(fname, ensure_ascii=False))
-    case = {"kind": "e2e", "vcs": vcs_kind, "file": fname, "commit_tmpl": tmpl, "tag_tmpl": tag_tmpl, "cli_msg": use_cli_msg}
+    # the configuration is written either as bumpver.toml or as setup.cfg: a configured message has to reach the VCS verbatim
+    # whichever reader it went through
+    ini = rng.random() < 0.35
+    cfg_name = "setup.cfg" if ini else "bumpver.toml"
+    if ini:
+        # INI: one logical line per value, no leading/trailing blanks (the parser strips them), file keys without '=' ':' and blanks at the ends
+        one_line = lambda t: " ".join(t.replace("\r", " ").replace("\n", " ").split()) if t.strip() else ""
+        tmpl, tag_tmpl = one_line(tmpl), one_line(tag_tmpl)
+        if rng.random() < 0.5:
+            tmpl = rng.choice(["100% done: ", "%(x)s ", "50%% ", "% "]) + tmpl
+        if any(ch in fname for ch in "=:#;[]") or fname != fname.strip():
+            fname = "a.txt"
+        cfg = "[bumpver]\ncurrent_version = 1.2.3\nversion_pattern = MAJOR.MINOR.PATCH\ncommit = True\ntag = True\npush = False\n"
+        if not use_cli_msg:
+            cfg += "commit_message = %s\n" % tmpl
+        cfg += "tag_message = %s\n" % tag_tmpl
+        cfg += "[bumpver:file_patterns]\nsetup.cfg =\n    current_version = {version}\n%s =\n    {version}\n" % fname
+    else:
+        # config values are read through toml: write them as TOML basic strings
+        cfg = "[bumpver]\ncurrent_version = \"1.2.3\"\nversion_pattern = \"MAJOR.MINOR.PATCH\"\ncommit = true\ntag = true\npush = false\n"
+        if not use_cli_msg:
+            cfg += "commit_message = %s\n" % json.dumps(tmpl, ensure_ascii=False)
+        cfg += "tag_message = %s\n" % json.dumps(tag_tmpl, ensure_ascii=False)
+        cfg += "[bumpver.file_patterns]\n\"bumpver.toml\" = ['current_version = \"{version}\"']\n%s = ['{version}']\n" % (("'" + fname + "'") if ('"' in fname or "\\" in fname) else json.dumps(fname, ensure_ascii=False))
+    case = {"kind": "e2e", "vcs": vcs_kind, "file": fname, "commit_tmpl": tmpl, "tag_tmpl": tag_tmpl, "cli_msg": use_cli_msg, "config": cfg_name}
     with sandbox.Project("c12") as pr:
-        pr.write_text("bumpver.toml", cfg)
+        pr.write_text(cfg_name, cfg)
         pr.write_text(fname, "version 1.2.3\n")
         pr.add_fake_vcs(vcs_kind)
         args = ["update", "--patch", "--no-fetch"]
@@ -156,12 +174,12 @@ def e2e_case(rng):
     log = [c for c in log if c[:3] != ["git", "tag", "--list"]]
     muts = [c for c in log if c[:2] in (["git", "add"], ["git", "commit"], ["git", "tag"], ["hg", "add"], ["hg", "commit"], ["hg", "tag"])]
     if vcs_kind == "git":
-        want = sorted([["git", "add", "--update", "bumpver.toml"], ["git", "add", "--update", fname]]) + \
+        want = sorted([["git", "add", "--update", cfg_name], ["git", "add", "--update", fname]]) + \
                [["git", "commit", "--message", want_msg]] + \
                [["git", "tag", "--annotate", "1.2.4", "--message", want_tag] if want_tag else ["git", "tag", "1.2.4"]]
         got = sorted(muts[:2]) + muts[2:]
     else:
-        want = sorted([["hg", "add", "bumpver.toml"], ["hg", "add", fname]]) + \
+        want = sorted([["hg", "add", cfg_name], ["hg", "add", fname]]) + \
                [["hg", "tag", "1.2.4", "--message", want_tag] if want_tag else ["hg", "tag", "1.2.4"]]
         got = sorted([m for m in muts if m[1] == "add"]) + [m for m in muts if m[1] == "tag"]
         commits = [m for m in muts if m[1] == "commit"]
